@@ -7,6 +7,16 @@ use std::cell::Cell;
 
 verus! {
 
+pub mod trusted_clone {
+    use vstd::prelude::*;
+    use std::collections::VecDeque;
+    /// trusted: a clone of a VecDeque has as many elements as the original (Vec::resize fills with clones)
+    pub broadcast axiom fn axiom_vecdeque_clone_len<T: Clone>(a: VecDeque<T>, b: VecDeque<T>)
+        requires #[trigger] vstd::pervasive::cloned::<VecDeque<T>>(a, b),
+        ensures a@.len() == b@.len();
+}
+broadcast use trusted_clone::axiom_vecdeque_clone_len;
+
 //@include vx_prelude.rs
 
 // ---- trusted: the engine's node, opaque.  Foreign cells (R8): a read returns the value of an
@@ -48,8 +58,9 @@ pub fn rc_thin_ptr_eq(one: &NodeRef, two: &NodeRef) -> (r: bool)
 
 pub assume_specification<T>[ core::mem::drop ](x: T);
 
-pub assume_specification<T: std::cmp::Ord + std::marker::Destruct>[ std::cmp::min ](a: T, b: T) -> (r: T)
-    ensures r == a || r == b;
+// R4: std::cmp::{min,max} on i32 (the only instantiation in these units) as monomorphic helpers with exact specs
+pub fn vx_min_i32(a: i32, b: i32) -> (r: i32) ensures r == (if a <= b { a } else { b }) { if a <= b { a } else { b } }
+pub fn vx_max_i32(a: i32, b: i32) -> (r: i32) ensures r == (if a >= b { a } else { b }) { if a >= b { a } else { b } }
 
 pub assume_specification<T, A: std::alloc::Allocator>[ VecDeque::<T, A>::is_empty ](q: &VecDeque<T, A>) -> (r: bool)
     ensures r == (q@.len() == 0);
@@ -230,7 +241,7 @@ impl AdjustHeightsHeap {
 //@ impl: impl AdjustHeightsHeap
 //@ name: ensure_height_requirement
 //@ as: fn ensure_height_requirement__too_high_must_panic(&mut self, original_child: &NodeRef, original_parent: &NodeRef, child: &NodeRef, parent: &NodeRef)
-//@ rule R8: `self.set_height(parent,` => `self.set_height__must_panic(parent,` x1
+//@ rule R8: `self.set_height(parent,` => `self.set_height__must_panic(parent,` x*
 //@ panics: diverge
 //@ props: C19
 //@ contract:
@@ -260,8 +271,12 @@ type RQueue = VecDeque<NodeRef>;
 impl RecomputeHeap {
     spec fn mha(&self) -> int { self.queues.len() - 1 }
     spec fn wf(&self) -> bool { 1 <= self.queues.len() <= 0x7fff_ffff }
+    /// no node is queued below the lower bound (what remove_min relies on to find every queued node)
+    spec fn lower_bound_ok(&self) -> bool {
+        forall|i: int| 0 <= i < self.queues@.len() && i < self.height_lower_bound ==> (#[trigger] self.queues@[i])@.len() == 0
+    }
     spec fn buckets_empty_from(&self, from: int) -> bool {
-        forall|i: int| from <= i < self.queues.len() ==> (#[trigger] self.queues[i]).len() == 0
+        forall|i: int| from <= i < self.queues@.len() ==> (#[trigger] self.queues@[i])@.len() == 0
     }
 
 //@extract fn RecomputeHeap::new
@@ -304,9 +319,10 @@ impl RecomputeHeap {
 //@ cells: queues, height_lower_bound
 //@ rule R5: `Queue::default()` => `RQueue::default()` x1
 //@ rule R5: `queues[i].borrow().is_empty()` => `queues[i].is_empty()` x1
-//@ props: C19
+//@ rule R4 re: `std::cmp::(min|max)\(` => `vx_\1_i32(` x*
+//@ props: C19 C06
 //@ loop 0:
-//@|     invariant queues@ == old(self).queues@, old(self).buckets_empty_from(new_max_height + 1), new_max_height < 0x7fff_fffe,
+//@|     invariant queues@ == old(self).queues@, old(self).buckets_empty_from(new_max_height + 1), new_max_height < 0x7fff_fffe, self.height_lower_bound == old(self).height_lower_bound,
 //@ contract:
 //@|     requires
 //@|         old(self).wf(),
@@ -314,13 +330,34 @@ impl RecomputeHeap {
 //@|         old(self).buckets_empty_from(new_max_height + 1),    // no node is scheduled above the new limit (heights in use <= N)
 //@|     ensures
 //@|         final(self).wf(), // [invariant-preserved]
+//@|         final(self).height_lower_bound <= old(self).height_lower_bound, // [the-lower-bound-never-rises]
+//@|         forall|i: int| old(self).queues@.len() <= i <= new_max_height ==> (#[trigger] final(self).queues@[i])@.len() == 0, // [new-buckets-are-empty]
 //@|         final(self).mha() == new_max_height, // [reconfigured-limit-is-N]
-//@|         forall|i: int| 0 <= i <= new_max_height && i < old(self).queues.len() ==> final(self).queues[i] == old(self).queues[i], // [scheduled-nodes-kept]
+//@|         forall|i: int| 0 <= i <= new_max_height && i < old(self).queues@.len() ==> final(self).queues@[i] == old(self).queues@[i], // [scheduled-nodes-kept]
 //@|         final(self).length == old(self).length, // [frame]
 //@end
 
 }
 
+
+/// C06 / scheduling: the three clauses above give back the scheduler's invariant "no queued node lies below the lower
+/// bound" (otherwise remove_min would never reach it and its change would be lost).
+proof fn lemma_reconfiguring_keeps_every_queued_node_reachable(o: RecomputeHeap, f: RecomputeHeap, n: int)
+    requires
+        o.lower_bound_ok(), o.buckets_empty_from(n + 1),
+        f.queues@.len() == n + 1,
+        f.height_lower_bound <= o.height_lower_bound,
+        forall|i: int| 0 <= i <= n && i < o.queues@.len() ==> (#[trigger] f.queues@[i]) == o.queues@[i],
+        forall|i: int| o.queues@.len() <= i <= n ==> (#[trigger] f.queues@[i])@.len() == 0,
+    ensures f.lower_bound_ok(),
+{
+    assert forall|i: int| 0 <= i < f.queues@.len() && i < f.height_lower_bound implies (#[trigger] f.queues@[i])@.len() == 0 by {
+        if i < o.queues@.len() {
+            assert(f.queues@[i] == o.queues@[i]);
+            assert((#[trigger] o.queues@[i])@.len() == 0);
+        }
+    }
+}
 
 // ---- State: the public entry points for the limit and the nested-stabilise guard (R5 on status and
 //      adjust_heights_heap; every other field of State is dropped: no function below touches it) ----
